@@ -36,10 +36,11 @@ fn other_pubs<B: Fld>(pubs: &SpecPub<B>) -> Vec<SpecPub<B>> {
         exemptions: 5,
         asserts: vec![ASpec { col: 3, kind: AKind::Sequence { first: 1, stride: 4 } }, ASpec { col: 1, kind: AKind::Single(63) }],
         aux: Aux::SumLagrange { cols: 2, rands: 2 },
+        aux_pow: 1,
         tail: Tail::Continue,
         init: 1,
     };
-    let minimal = AirSpec { n: 8, rules: vec![Rule::Pow { d: 1, c: 0 }], exemptions: 1, asserts: vec![ASpec { col: 0, kind: AKind::Single(0) }], aux: Aux::None, tail: Tail::Continue, init: 0 };
+    let minimal = AirSpec { n: 8, rules: vec![Rule::Pow { d: 1, c: 0 }], exemptions: 1, asserts: vec![ASpec { col: 0, kind: AKind::Single(0) }], aux: Aux::None, aux_pow: 1, tail: Tail::Continue, init: 0 };
     vec![
         pubs.clone(),
         SpecPub { spec: Arc::new(wide), values: vec![vec![B::ONE; 16], vec![B::ZERO]] },
